@@ -53,7 +53,8 @@ def generate(rng, tier):
         p.update(ndim=nd, levelmin=rng.choice([1, 2]), levelmax=rng.choice([26, 28, 30]) if nd == 1 else 26, refine_p=0.05, maxcells=300,
                  nboundary=0, ordering=rng.choice(["planar", "angular"]), bound_frac=None, bound_keys=None,
                  chain=[round(rng.uniform(0.05, 0.95), 6) + 1.0 / 3e7 for _ in range(nd)], part=None, prune=[])
-    case = {"world": p, "nout_arg": rng.choice(["explicit", "explicit", "minus1"]), "glob_seed": rng.getrandbits(32), "prior": None}
+    case = {"world": p, "nout_arg": rng.choice(["explicit", "explicit", "minus1"]), "glob_seed": rng.getrandbits(32), "prior": None,
+            "later": rng.choice([None] * 8 + ["full", "capped"])}
     # the full load must not depend on what the dataset object was used for before (C15's concern, exercised here too)
     if rng.random() < 0.2:
         k = rng.choice(["level", "groups", "vars"])
@@ -125,6 +126,14 @@ def execute(case, stats):
         stats.inc(f"swarm.ndim={w.ndim}")
         stats.inc(f"swarm.ordering={'hilbert' if w.hilbert else 'other'}")
         stats.add("world_shapes", (w.ndim, w.ncpu, w.levelmin, w.levelmax, w.nb, len(w.hydro_vars), bool(w.grav_vars), bool(w.rt_vars)))
+        if case.get("later"):
+            # the loaded dataset is looked at only after another dataset object has loaded the same output (with a level cap,
+            # i.e. other buffer sizes): what a load returned must not change afterwards
+            try:
+                disk.load(select={"mesh": {"level": lambda l: l <= max(1, w.levelmax - 1)}}) if case["later"] == "capped" else disk.load()
+            except Exception:
+                pass
+            stats.inc("probe.dataset_judged_after_a_later_load_by_another_dataset")
         for cls, clause, detail in compare_full(ds, w):
             V(cls, clause, detail)
         if not viol:
@@ -151,7 +160,7 @@ def measure(case):
     p = case["world"]
     return (p["ncpu"], p["levelmax"], p["ndim"], len(p["hydro_vars"]), int(bool(p["grav"])), int(bool(p["rt_vars"])), p["nboundary"],
             p["maxcells"], int(p["ghost_p"] * 10), int(p["part"] is not None) + int(p["sink"] is not None), len(p["siblings"]),
-            int(case["nout_arg"] == "minus1"), int(p["units"] != [1.0, 1.0, 1.0]), p["noutput"], int(p["key_quad"]), int(bool(case.get("prior"))))
+            int(case["nout_arg"] == "minus1"), int(p["units"] != [1.0, 1.0, 1.0]), p["noutput"], int(p["key_quad"]), int(bool(case.get("prior"))) + int(bool(case.get("later"))))
 
 
 def world_reductions(p):
@@ -208,3 +217,5 @@ def reductions(case, viol):
         yield dict(case, nout_arg="explicit")
     if case.get("prior"):
         yield dict(case, prior=None)
+    if case.get("later"):
+        yield dict(case, later=None)
